@@ -232,6 +232,11 @@ fn selections(tier: Tier) -> Vec<(String, Selection)> {
             Selection { opts: vec![o("optimal_comparison"), o("solidity_math")], vulns: vec![v("unsafe_erc20_operation"), v("floating_pragma")], qas: vec![q("private_vars_leading_underscore"), q("constructor_order")] },
         ),
     ];
+    // the version-gated patterns (their verdict depends on text elsewhere in the file) and the division pattern
+    s.push((
+        "gated".to_string(),
+        Selection { opts: vec![o("safe_math_pre_080"), o("safe_math_post_080"), o("string_errors"), o("short_revert_string")], vulns: vec![v("divide_before_multiply")], qas: vec![q("private_vars_leading_underscore")] },
+    ));
     if tier == Tier::Thorough {
         s.push(("all".to_string(), Selection { opts: opt::get_all_optimizations(), vulns: vul::get_all_vulnerabilities(), qas: qa::get_all_qa() }));
     }
@@ -391,6 +396,25 @@ pub fn c03(tier: Tier) -> i32 {
             trees.push(vec![file("Cr.sol", cr.as_bytes()), file("Mixed.sol", mixed.as_bytes()), d("z", vec![file("Crlf.sol", crlf.as_bytes())])]);
             trees.push(vec![file("Long.sol", long.as_bytes()), file("Crlf.sol", crlf.as_bytes())]);
             trees.push(vec![file("OLDVAULT.SOL", pq), file("Backup.Sol", pq), file("Real.sol", p), d("old", vec![file("x.SOL", pq), file("y.sOl", p2), file("Z.sol", pq)])]);
+            // two files of equal length (> 4 KB, > 64 KB) that agree on a long prefix and differ only near the end; the pair in one
+            // directory, in sibling directories at the same index, and one of them twice
+            for filler in [300usize, 5000] {
+                let head = format!("pragma solidity ^0.8.0;\n{}contract Tail {{\n  function f(uint256 a, uint256 b, uint256 c, address t) public payable returns (uint256) {{\n", "// the same long banner line in both files\n".repeat(filler / 3));
+                let one = format!("{}    return a / b * c;\n  }}\n}}\n", head);
+                let two = format!("{}    return a * b / c;\n  }}\n}}\n", head);
+                let three = format!("{}    IERC20(t).transfer(t, a);\n  }}\n}}", head);
+                trees.push(vec![file("One.sol", one.as_bytes()), file("Two.sol", two.as_bytes()), file("Three.sol", three.as_bytes())]);
+                trees.push(vec![d("a", vec![file("T.sol", one.as_bytes())]), d("b", vec![file("T.sol", two.as_bytes())]), d("c", vec![file("T.sol", one.as_bytes())])]);
+            }
+            // the same construct at the same byte offset on different lines (a blank run against a line feed), side by side
+            let same_off_a = "pragma solidity ^0.8.0; contract A {\n    uint256 private total; function f(uint256 a) public returns (uint256) { return a + 1; }\n}\n";
+            let same_off_b = "pragma solidity ^0.8.0; contract A {     uint256 private total; function f(uint256 a) public returns (uint256) { return a + 1; }\n}\n";
+            let same_off_c = "pragma solidity ^0.8.0;\ncontract A {     uint256 private total;\nfunction f(uint256 a) public returns (uint256) { return a + 1; } }\n";
+            trees.push(vec![file("A.sol", same_off_a.as_bytes()), file("B.sol", same_off_b.as_bytes()), file("C.sol", same_off_c.as_bytes())]);
+            trees.push(vec![file("B.sol", same_off_b.as_bytes()), d("x", vec![file("A.sol", same_off_a.as_bytes())]), file("C.sol", same_off_c.as_bytes())]);
+            // text that looks like a version, after the directive: a string constant, a comment, a second contract's own pragma-like text
+            let ver_after = |pragma: &str, later: &str| format!("pragma solidity {};\n{}\ncontract V {{\n  using SafeMath for uint256;\n  string public constant VERSION = \"{}\";\n  function f(uint256 a, bool c) public payable returns (uint256) {{\n    require(c, \"a revert string that is longer than thirty-two bytes\");\n    return a.add(1);\n  }}\n}}\n", pragma, "// built with 0.4.26 / deployed as 1.0.0", later);
+            trees.push(vec![file("V1.sol", ver_after("^0.8.4", "1.0.0").as_bytes()), file("V2.sol", ver_after("0.7.6", "0.8.19").as_bytes()), file("V3.sol", ver_after("0.8.19", "0.7.6").as_bytes()), file("V4.sol", ver_after(">=0.8.0 <0.9.0", "2.0.0").as_bytes())]);
         }
         // files that refer to each other: imports between siblings (also cyclic, of itself, of a missing file, of a file in
         // a sub-directory) and a derived contract in another file that writes the base contract's variables
